@@ -249,10 +249,13 @@ func (f *Fakes) roundTrip(r *http.Request) (*http.Response, error) {
 		b, _ := json.Marshal(out)
 		return httpResp(200, b), nil
 	}
-	if fault != nil && fault.Kind == "status500-validbody" {
+	if fault != nil && strings.HasPrefix(fault.Kind, "status") && strings.HasSuffix(fault.Kind, "-validbody") {
+		// a status outside 2xx (5xx, or a 3xx the client hands back as it is) with a well-formed answer as body
 		f.FaultsApplied++
+		code := 500
+		fmt.Sscanf(fault.Kind, "status%d-validbody", &code)
 		b, _ := json.Marshal(out)
-		return httpResp(500, b), nil
+		return httpResp(code, b), nil
 	}
 	if fault != nil {
 		var applied bool
